@@ -29,6 +29,7 @@ type globalInfo struct {
 	sliceLit []*big.Int // []byte{...} literal: element values
 	isSliceLit bool
 	strLit   *string // string variable initialised with a constant
+	fnVal    *ssa.Function // function variable initialised with a function
 }
 
 type globalIndex struct {
@@ -154,6 +155,8 @@ func buildGlobalIndex(P *Program) *globalIndex {
 					} else if c, ok := st.Val.(*ssa.Const); ok && c.Value != nil && c.Value.Kind() == constant.String && isStraightLine(init, b) && info.strLit == nil {
 						sv := constant.StringVal(c.Value)
 						info.strLit = &sv
+					} else if fv, ok := st.Val.(*ssa.Function); ok && isStraightLine(init, b) && info.fnVal == nil {
+						info.fnVal = fv
 					} else if lit, ok := sliceLiteral(st.Val); ok && isStraightLine(init, b) && !info.isSliceLit {
 						info.sliceLit = lit
 						info.isSliceLit = true
